@@ -68,6 +68,13 @@ def check_levels(col, levels, extra_blocks=None):
     case = {"levels": list(levels), "blocks": {str(k): v for k, v in (extra_blocks or {}).items()}}
     doc, lines = parse(text, {"doctitle_xform": False, "myst_enable_extensions": ["colon_fence"]})
     want_par, want_warn = model(levels)
+    import re as _re
+
+    stray = [s_[0].astext() for s_ in doc.findall(nodes.section) if not (len(s_) and _re.fullmatch(r"h\d+", s_[0].astext()))]
+    if stray:
+        col.fail("C05.nested-heading", case, f"a heading that is not at document level opened a section: {stray!r}",
+                 function="myst_parser.mdit_to_docutils.base:DocutilsRenderer.render_heading")
+        return
     got = observed(doc)
     if got != want_par:
         col.fail("C05.nesting", case, f"section parents {got!r}, reference model {want_par!r}",
